@@ -427,6 +427,12 @@ let bldgen (line : string) : string =
     if has 'k' && not !blocked && not backoff && not st.paused && available st.av
        && List.for_all (fun g -> match nth_error st.ws (nat_of_int g) with Some wk -> wk.w_open | None -> false) (List.map int_of_nat st.handles)
        && List.for_all (fun ls -> ls.l_backlog = []) st.lsts then add 1 `K;
+    (* flag m: a second worker dies before the death of the first has been noticed (it is noticed when the rotation next reaches
+       it): the poisoned connection goes to the next worker of the rotation that is alive — there must be one besides it *)
+    let open_handles = List.filter (fun g -> match nth_error st.ws (nat_of_int g) with Some wk -> wk.w_open | None -> false) (List.map int_of_nat st.handles) in
+    if has 'm' && not !blocked && not backoff && not st.paused && available st.av
+       && List.length open_handles >= 2 && List.length open_handles < List.length st.handles
+       && List.for_all (fun ls -> ls.l_backlog = []) st.lsts then add 3 `K1;
     (* a readiness failure (restart of one service on the worker that takes the connection): where the connection is dispatched at
        once (so that worker asks its services now), on a listener that has a builder call of its own *)
     let own_call tok = List.length (List.filter (fun t -> call_of (nat_of_int t) = call_of (nat_of_int tok)) (List.init nl (fun i -> i))) = 1 in
@@ -465,6 +471,7 @@ let bldgen (line : string) : string =
        emit ("Q" ^ shapes.(rand (Array.length shapes)))
      | `E -> emit (Printf.sprintf "E%d" (rand nl))
      | `K -> if rand 3 = 0 then emit (Printf.sprintf "J%d:%d" (rand nl) (rand nl)) else emit (Printf.sprintf "K%d" (rand nl))
+     | `K1 -> emit (Printf.sprintf "K%d" (rand nl))
      | `T -> emit "+600")
   done;
   let st = fst !acc in
